@@ -133,6 +133,13 @@ class Ctx:
                 self.proof_failures.append({"theorem": n, "reason": "inadmissible axioms %s" % sorted(found[n] - ALLOWED_AXIOMS)})
             else:
                 self.discharged.append(n)
+        if self.tier == "thorough":
+            t = time.time()
+            rc = subprocess.run(["lake", "env", "leanchecker", "SparseSpace.Properties." + pid], cwd=LEAN, capture_output=True, text=True)
+            self.extra["leanchecker"] = {"module": "SparseSpace.Properties." + pid, "rc": rc.returncode, "wall_s": round(time.time() - t, 1)}
+            if rc.returncode != 0:
+                self.proof_failures.append({"theorem": "SparseSpace.Properties." + pid, "reason": "leanchecker rejected the compiled module",
+                                            "log": (rc.stdout + rc.stderr)[-2000:]})
         # textual audit of the property file and everything it could import (comments stripped)
         hits = []
         for dp, _, fs in os.walk(os.path.join(LEAN, "SparseSpace")):
